@@ -697,6 +697,62 @@ fn main() {
             println!("{}", serde_json::to_string(&Value::Object(res)).unwrap());
             return;
         }
+        if case["kind"] == "insertion_e2e" {
+            // the real insertion evaluator on the whole job (single or multi with tasks in the given order)
+            use vrp_core::construction::heuristics::{eval_job_insertion_in_route, EvaluationContext, InsertionPosition};
+            use vrp_core::models::common::TimeSpan;
+            use vrp_core::models::problem::{Multi, Place as JPlace};
+            let singles: Vec<Arc<Single>> = case["tasks"]
+                .as_array()
+                .unwrap()
+                .iter()
+                .map(|t| {
+                    let mut dimens = Dimensions::default();
+                    if let Some(d) = demand(t) {
+                        dimens.set_job_demand(d);
+                    }
+                    Arc::new(Single {
+                        places: vec![JPlace {
+                            location: Some(t["loc"].as_u64().unwrap() as usize),
+                            duration: num(&t["dur"]),
+                            times: vec![TimeSpan::Window(TimeWindow::new(num(&t["tws"]), num(&t["twe"])))],
+                        }],
+                        dimens,
+                    })
+                })
+                .collect();
+            let job = if singles.len() == 1 {
+                Job::Single(singles[0].clone())
+            } else {
+                Job::Multi(Multi::new_shared(singles, Dimensions::default()))
+            };
+            let ictx = InsertionContext::new_empty(problem.clone(), Arc::new(vrp_core::rosomaxa::utils::Environment::default()));
+            let selector = BestResultSelector::default();
+            let goal_e2e = if case.get("capacity").is_some_and(|c| !c.is_null()) {
+                GoalContextBuilder::with_features(&[f_cost.clone(), f_cap.clone()]).unwrap().build().unwrap()
+            } else {
+                GoalContextBuilder::with_features(&[f_cost.clone()]).unwrap().build().unwrap()
+            };
+            let eval_ctx = EvaluationContext {
+                goal: &goal_e2e,
+                job: &job,
+                leg_selection: &LegSelection::Exhaustive,
+                result_selector: &selector,
+            };
+            let result =
+                eval_job_insertion_in_route(&ictx, &eval_ctx, &rc, InsertionPosition::Any, InsertionResult::make_failure());
+            let out = match &result {
+                InsertionResult::Success(s) => json!({
+                    "success": true,
+                    "activities": s.activities.iter().map(|(a, idx)| json!({"index": idx, "loc": a.place.location, "dur": a.place.duration,
+                        "tws": a.place.time.start, "twe": a.place.time.end})).collect::<Vec<_>>(),
+                    "cost": s.cost.iter().collect::<Vec<_>>(),
+                }),
+                InsertionResult::Failure(f) => json!({"success": false, "code": f.constraint.0, "stopped": f.stopped}),
+            };
+            println!("{}", serde_json::to_string(&out).unwrap());
+            return;
+        }
         let mut ictx = InsertionContext::new_empty(problem, Arc::new(vrp_core::rosomaxa::utils::Environment::default()));
         ictx.solution.routes.push(priced);
         out["total_cost"] = json!(ictx.get_total_cost());
